@@ -4,6 +4,9 @@ CONSTANTS
   MaxDepth = 3
   MaxRoots = 2
   RootFilter = {}
+  FieldFilter = {}
+  MaxReval = 2
   Mut = "none"
 SPECIFICATION GenSpec
+
 CHECK_DEADLOCK FALSE
